@@ -249,11 +249,35 @@ def r5_uncertainty_alignment(ctx):
     ctx.check(has(fn, "if len(result2) <= len(result1): return result2 else: return result1"), a, "shortest-wins", "the shorter of the two layouts must be returned", node=fn)
 
 
+def r6_arms(ctx):
+    """which value is formatted: the given uncertainty/unit win over the number's own; exponent form split only when there is an exponent"""
+    fn = ctx.func(NUM, "_number_to_X")
+    a = NUM + ":_number_to_X"
+
+    def chk(frag, key, msg):
+        ctx.check(has(fn, frag), a, key, msg + " (expected `%s`)" % frag, node=fn)
+
+    chk("uncertainty = uncertainty or getattr(number, 'uncertainty', None)", "given-uncertainty-wins", "a given uncertainty is used; the number's own only when none is given")
+    chk("unit = unit or unit_of(number)", "given-unit-wins", "a given unit is used; the number's own only when none is given")
+    chk("if unit is integer_one: unit_str = '' mag = number else:", "unitless-arm", "a unitless number is printed as is, without unit text")
+    chk("mag = to_unitless(number, unit)", "magnitude-in-printed-unit", "the printed magnitude is the number expressed in the printed unit")
+    chk("if uncertainty is not None: uncertainty = to_unitless(uncertainty, unit)", "uncertainty-in-printed-unit", "the uncertainty is expressed in the same printed unit")
+    chk("if uncertainty is None:", "plain-vs-parenthesis", "without uncertainty the plain form is used, with one the parenthesis form")
+    chk("flt = fmt(mag, uncertainty)", "callable-fmt(value,uncertainty)", "a callable format gets (value, uncertainty) in that order")
+    chk("flt = _float_str_w_uncert(mag, uncertainty, fmt)", "parenthesis(value,uncertainty,digits)", "the parenthesis form gets (value, uncertainty, digits)")
+    chk("if 'e' in flt: significand, mantissa = flt.split('e') return fmt_pow_10(significand, mantissa) + unit_str else: return flt + unit_str", "exponent-split",
+        "a text with exponent is split into significand and exponent at 'e'; the unit follows in both cases")
+    ps = ctx.func(STR, "StrPrinter._Reaction_param_str")
+    ctx.check(has(ps, "if is_quantity(rxn.param) or isinstance(rxn.param, (float,)): return mag_fmt(rxn.param) else: return str(rxn.param)"), STR + ":StrPrinter._Reaction_param_str", "plain-number-arm",
+              "a plain float (or bare quantity) goes through the magnitude format, anything else through str()", node=ps)
+
+
 RULES = [
     Rule("C20-R1", r1_roman, 18, "roman table == standard definition; greedy loop"),
     Rule("C20-R2", r2_pow10, 13, "power-of-ten siblings"),
     Rule("C20-R3", r3_wiring, 16, "number_to_scientific_<x> wiring; _number_to_X precision/unit/uncertainty"),
     Rule("C20-R4", r4_param, 5, "_Reaction_param_str = magnitude + separator + unit"),
+    Rule("C20-R6", r6_arms, 10, "which value/unit/uncertainty is formatted; exponent split"),
     Rule("C20-R5", r5_uncertainty_alignment, 9, "_float_str_w_uncert: one rounding position for value and uncertainty; both layouts"),
 ]
 
